@@ -134,6 +134,9 @@ var (
 	Tier    string
 )
 
+// WorkerEnv, if set, returns additional environment variables for worker wid.
+var WorkerEnv func(wid int) []string
+
 // ExtraWorkerArgs are passed through to worker and replay subprocesses
 // (engine-specific flags that the engine's main strips before Main).
 var ExtraWorkerArgs []string
@@ -347,6 +350,9 @@ func runParent(e Engine, tier string, seed uint64, workers int, budget time.Dura
 			defer wg.Done()
 			cmd := exec.Command(self, append(append([]string(nil), ExtraWorkerArgs...), "-worker", "-wid", fmt.Sprint(w), "-workers", fmt.Sprint(workers), "-tier", tier, "-seed", fmt.Sprint(seed), "-budget", budget.String(), "-runs", fmt.Sprint(maxRuns), "-scratch", scratch, "-case-timeout", caseTO.String())...)
 			cmd.Env = os.Environ()
+			if WorkerEnv != nil {
+				cmd.Env = append(cmd.Env, WorkerEnv(w)...)
+			}
 			stdout, _ := cmd.StdoutPipe()
 			errFile := filepath.Join(scratch, fmt.Sprintf("worker-%s-%d-%d.err", e.Name(), os.Getpid(), w))
 			ef, _ := os.Create(errFile)
